@@ -15,6 +15,7 @@
    4. composition with Proofs/AdaptersGen.v and Proofs/Adapters.v: render (convert s) is read as
       ad_project AdTermcolor s, for every anstyle style s with u8 components.
    There is no hand model in between: the statements are about the generated functions. *)
+From Coq Require Import String.
 From Coq Require Import NArith Arith List Bool Lia.
 From AV Require Import Spec.Utf8 Spec.Vt Spec.Sgr Spec.Algebra Spec.Render Spec.Targets Model.Base Model.Imp
   Generated.Adapters Model.Adapters Generated.AdaptersFn Proofs.Adapters Proofs.AdaptersGen
@@ -408,6 +409,26 @@ Proof.
   cbn in G1, G2, G3, G4. split.
   - unfold tcr_spec_ok. now rewrite G1, G2.
   - unfold tcr_shown. rewrite G1, G2, G3, G4, Mf, Mb, N.lor_0_r. reflexivity.
+Qed.
+
+(* [tcr_spec_of] agrees with the call sequence of anstyle_termcolor::to_termcolor_spec: the abstract
+   value Generated/AdaptersFn.v builds for `ColorSpec::new(); set_fg(f); set_bg(b); set_bold(b1);
+   set_dimmed(b2); set_italic(b3); set_underline(b4)` (vocabulary of Model/Adapters.v: a flag set to
+   false leaves the list) denotes the ColorSpec the TRANSLATED constructor and setters build when
+   called in that order with those arguments *)
+Definition tcr_n_set_bold : list N := Eval vm_compute in ad_str "set_bold".
+Definition tcr_n_set_dimmed : list N := Eval vm_compute in ad_str "set_dimmed".
+Definition tcr_n_set_italic : list N := Eval vm_compute in ad_str "set_italic".
+Definition tcr_n_set_underline : list N := Eval vm_compute in ad_str "set_underline".
+
+Lemma tcr_spec_of_call_sequence cf cb f b b1 b2 b3 b4 :
+  tcr_ocolor_of cf = Some f -> tcr_ocolor_of cb = Some b ->
+  tcr_spec_of (ad_t_flag (ad_t_flag (ad_t_flag (ad_t_flag (ad_t_set_bg (ad_t_set_fg ad_t_new cf) cb)
+                 tcr_n_set_bold b1) tcr_n_set_dimmed b2) tcr_n_set_italic b3) tcr_n_set_underline b4) =
+  Some (fst (g_tcr_set_underline (fst (g_tcr_set_italic (fst (g_tcr_set_dimmed (fst (g_tcr_set_bold
+         (fst (g_tcr_set_bg (fst (g_tcr_set_fg g_tcr_spec_new f)) b)) b1)) b2)) b3)) b4)).
+Proof.
+  intros Hf Hb. destruct b1, b2, b3, b4; unfold tcr_spec_of; cbn; rewrite Hf, Hb; reflexivity.
 Qed.
 
 Theorem tcr_meaning_rendered t m : tcr_tstyle_ok t -> ad_meaning AdTermcolor t = Some m ->
